@@ -35,6 +35,14 @@ func genOp(t *rapid.T, phase int) kit.Cmd {
 	c := func(name string, args ...string) kit.Cmd {
 		return kit.MkCmd(append([]string{gen.CaseOf(t, name)}, args...)...)
 	}
+	if rapid.IntRange(0, 24).Draw(t, "infinite") == 0 {
+		// one member lives at the infinities: set there, then moved by an increment (the sum of opposite
+		// infinities is not a number and must be refused)
+		if rapid.Bool().Draw(t, "infset") {
+			return c("zadd", key(t), gen.Pick(t, "infs", "inf", "-inf", "+inf"), "w")
+		}
+		return c("zadd", key(t), gen.CaseOf(t, "incr"), gen.Pick(t, "infi", "inf", "-inf", "+inf", "1"), "w")
+	}
 	w := []int{14, 6, 6, 3, 1}
 	if phase == 1 { // delete-heavy phase
 		w = []int{4, 14, 4, 3, 1}
